@@ -412,7 +412,9 @@ class World(object):
     def new_exc(self, code, label): return self.new_exc_obj(EXC[code], label)
 
     def payload(self, how, exc):
-        if how == "send": return self.sentinel()
+        if how == "send":
+            # an exception *instance* sent as an ordinary value must arrive as the value of the yield, not be raised (seeded change C15-4)
+            return self.new_exc(exc, "sent-as-value") if exc else self.sentinel()
         if how == "throw":
             if exc in ("Vc", "Bc", "G"): return EXC[exc]
             return self.new_exc(exc, "thrown")
@@ -701,7 +703,7 @@ def _run_scenario(sc):
 
 
 # ---------------------------------------------------------------------------------------------- enumeration
-HOWS = [("next", None), ("send", None), ("throw", "V"), ("throw", "B"), ("throw", "G"), ("throw", "S"), ("close", None)]
+HOWS = [("next", None), ("send", None), ("send", "V"), ("send", "B"), ("throw", "V"), ("throw", "B"), ("throw", "G"), ("throw", "S"), ("close", None)]
 Y = ["yield"]; L = ["log"]
 FIXED_PROGS = [
     [Y, L, Y],
@@ -759,7 +761,7 @@ def enumerate_scenarios(tier, seed):
                     yield {"gens": [{"kind": kind, "prog": prog}], "steps": steps_for(list(adv) + list(seq), pat), "debug": rng.random() < 0.2}
     # family B: two generators with actions spanning yields, every interleaving of who is resumed how
     LB = 3 if quick else 4
-    HB = [("next", None), ("send", None), ("throw", "B"), ("close", None)]
+    HB = [("next", None), ("send", None), ("send", "V"), ("throw", "B"), ("close", None)]
     progsB = [[["act", [Y, L, Y]], L, ["return"]], [L, ["act", [["try", [Y, Y], "finally", [L]]]], Y]]
     for started in (0, 1, 2):
         pre = [("next", None)] * started; gpre = [0, 1][:started]
